@@ -379,6 +379,68 @@ def engine_has_tags(kind, w):
         return False
 
 
+def c07_v23_same_object(ctx, checks):
+    """saving as v2.3 is a projection of the in-memory tag, not an edit of it: two v2.3 saves in a row through the SAME object
+    (plain ID3 / MP3 and the Easy wrappers, whose save converts a copy and restores it) write identical bytes, and a v2.4
+    save afterwards writes what a fresh object writes -- with frames the conversion merges or splits (TIPL+TMCL -> IPLS,
+    TDRC -> TYER/TDAT/TIME, TDOR, multi-valued text, CHAP sub-frames)"""
+    if "C07" not in checks:
+        return
+    from mutagen.id3 import ID3, TIPL, TMCL, TDRC, TDOR, TIT2, TPE1, TCON, CHAP, CTOC, TXXX, COMM
+    from mutagen.easyid3 import EasyID3
+    from mutagen.mp3 import MP3, EasyMP3
+    mp3 = [d for s, d in KINDS["MP3"].samples() if not s.startswith("synth")]
+    if not mp3:
+        return
+    audio = mp3[0]
+    if audio[:3] == b"ID3":
+        audio = audio[W.id3v2_walk(audio)["size"]:]
+    if W.id3v1_at_end(audio):
+        audio = audio[:-128]
+
+    def frames(n):
+        fs = [TIT2(encoding=3, text=["Title"]), TPE1(encoding=3, text=["A", "B"])]
+        if n >= 1:
+            fs += [TIPL(encoding=3, people=[["producer", "Ann"], ["mix", "Mo"]]), TMCL(encoding=3, people=[["guitar", "Bob"], ["drums", "Cid"]])]
+        if n >= 2:
+            fs += [TDRC(encoding=3, text=["2003-04-05 12:03:07"]), TDOR(encoding=3, text=["1999-01"]), TCON(encoding=3, text=["Rock", "(17)"]),
+                   TXXX(encoding=3, desc="k", text=["v1", "v2"]), COMM(encoding=3, lang="eng", desc="d", text=["c"])]
+        if n >= 3:
+            fs += [CHAP(element_id="c1", start_time=0, end_time=9, start_offset=0xFFFFFFFF, end_offset=0xFFFFFFFF,
+                        sub_frames=[TIT2(encoding=3, text=["ch"]), TIPL(encoding=3, people=[["producer", "Zed"]]), TMCL(encoding=3, people=[["bass", "Yo"]])]),
+                   CTOC(element_id="toc", flags=3, child_element_ids=["c1"], sub_frames=[TIT2(encoding=3, text=["toc"])])]
+        return fs
+    for n in (1, 2, 3):
+        t = ID3()
+        for f in frames(n):
+            t.add(f)
+        b0 = io.BytesIO(audio)
+        t.save(b0, v1=0)
+        data = b0.getvalue()
+        for lab, cls in (("ID3", ID3), ("MP3", MP3), ("EasyID3", EasyID3), ("EasyMP3", EasyMP3)):
+            d = {"class": lab, "frames": n}
+            try:
+                o = cls(io.BytesIO(data))
+                b = io.BytesIO(data); o.save(b, v2_version=3); s1 = b.getvalue()
+                b = io.BytesIO(s1); o.save(b, v2_version=3); s2 = b.getvalue()
+                b = io.BytesIO(data); o.save(b); s4 = b.getvalue()
+                fresh = cls(io.BytesIO(data))
+                b = io.BytesIO(data); fresh.save(b); f4 = b.getvalue()
+            except mutagen.MutagenError:
+                continue
+            except Exception as e:
+                _v(ctx, "C07", "%s: v2.3 / v2.4 saves of one object raised %s" % (lab, type(e).__name__), dict(d, error=str(e)[:120]))
+                continue
+            ctx.oracle_cases += 1
+            ctx.count("c07:v23-same-object")
+            ctx.case(("c07-v23-same-object", lab, n))
+            if s2 != s1:
+                _v(ctx, "C07", "%s: a second unmodified v2.3 save through the same object changes the file" % lab, dict(d, len1=len(s1), len2=len(s2)))
+            elif s4 != f4:
+                _v(ctx, "C07", "%s: after v2.3 saves the same object writes a different v2.4 tag than a fresh object (the conversion leaked into memory)" % lab,
+                   dict(d, len_same=len(s4), len_fresh=len(f4)))
+
+
 def c02_stray_tag_marker(ctx, checks):
     """audio whose last 131 bytes contain the bytes 'TAG' where no ID3v1 tag can start: no save option may cut or
     overwrite the audio there"""
@@ -780,7 +842,7 @@ OGG_SCENARIOS = (ogg_lacing_sweep, ogg_opus_trailer_sweep, ogg_foreign_paging)
 
 
 def run(ctx, checks, only=None):
-    for fn in only or ((c01_pictures, c01_asf_plain_values, c01_easy_multivalue, c09_easy, c08_ape_stale_fragments, c08_id3_delete_options, c08_tags_delete, c02_stray_tag_marker) + OGG_SCENARIOS):
+    for fn in only or ((c01_pictures, c01_asf_plain_values, c01_easy_multivalue, c09_easy, c08_ape_stale_fragments, c08_id3_delete_options, c08_tags_delete, c02_stray_tag_marker, c07_v23_same_object) + OGG_SCENARIOS):
         try:
             fn(ctx, checks)
         except Exception as e:
